@@ -42,6 +42,8 @@ ASSUMPTIONS = ["two-thread layer: each thread has its own updater and its own st
 
 NAMES = ["default", "arrivals", "service", "a", "b", "", "stream-1", "Stream 2",
          "ü", "x" * 40, "routing", "breakdown",
+         # names beyond Latin-1 and beyond the basic multilingual plane
+         "λ arrivals", "到着", "обслуживание", "queue-\U0001F600",
          # distinct names whose polynomial (x31) string hashes collide
          "Aa", "BB", "m1a", "m2B", "AaAa", "BBBB"]
 
